@@ -387,3 +387,206 @@ func TestVF_C06_Systematic(t *testing.T) {
 		}
 	})
 }
+
+// ---- overlapping pass-through streams for the same shard pair
+
+type c06oOp struct {
+	K string `json:"k"` // open | src | ack | endOldest | endNewest | tick
+	I int    `json:"i,omitempty"`
+}
+
+type c06oCase struct {
+	Mode string   `json:"mode"`
+	Ops  []c06oOp `json:"ops"`
+}
+
+// c06oRun: the initiator re-opens its stream for a shard while the previous one is still up (or while it is being torn
+// down): every live stream still relays in both directions, and every handler returns once its own initiator ended -
+// whatever happened to the other stream (the forwarders share process-wide bookkeeping keyed by shard).
+func c06oRun(t *testing.T, c c06oCase) (classes map[string]bool, verr error) {
+	classes = map[string]bool{}
+	type strm struct {
+		ss    *vfServerStream
+		cs    *vfClientStream
+		done  chan error
+		ended bool
+		nSrc  int
+		nAck  int
+	}
+	leak, p := vfBubble(t, func() {
+		scc := config.ShardCountConfig{Mode: config.ShardCountDefault}
+		var lcmP LCMParameters
+		if c.Mode == "lcm" {
+			scc = config.ShardCountConfig{Mode: config.ShardCountLCM, LocalShardCount: 4, RemoteShardCount: 6}
+			lcmP = LCMParameters{LCM: 12, TargetShardCount: 4}
+		}
+		var all []*strm
+		open := func() *strm {
+			md := metadata.Pairs(history.MetadataKeyClientClusterID, "7", history.MetadataKeyClientShardID, "3",
+				history.MetadataKeyServerClusterID, "9", history.MetadataKeyServerShardID, "2")
+			s := &strm{ss: newVFServerStream(context.Background(), "initiator", md), done: make(chan error, 1)}
+			cl := &vfAdminClient{OnOpen: func(_ context.Context, cs *vfClientStream) error { s.cs = cs; return nil }}
+			tmd, _ := metadata.FromIncomingContext(s.ss.Context())
+			go func() {
+				s.done <- handleStream(s.ss, tmd.Copy(), history.ClusterShardID{ClusterID: 9, ShardID: 2}, history.ClusterShardID{ClusterID: 7, ShardID: 3},
+					vfNoop(), scc, lcmP, RoutingParameters{}, cl, nil, nil, []string{"vf"}, context.Background())
+			}()
+			vfQuiesce()
+			all = append(all, s)
+			return s
+		}
+		live := func() []*strm {
+			var out []*strm
+			for _, s := range all {
+				if !s.ended {
+					out = append(out, s)
+				}
+			}
+			return out
+		}
+		end := func(s *strm) {
+			s.ended = true
+			s.ss.PushEOF() // the initiator half-closes: the forwarder closes the source side and returns
+			vfQuiesce()
+			if s.cs != nil && s.cs.CloseSendCalled() {
+				s.cs.PushEOF()
+			}
+			vfQuiesce()
+			time.Sleep(2 * time.Second)
+			vfQuiesce()
+			select {
+			case <-s.done:
+			default:
+				verr = fmt.Errorf("a pass-through stream's initiator ended (with %d other stream(s) for the same shard open or ended before) but its handler did not return", len(all)-1)
+			}
+		}
+		relay := func(s *strm, src bool) {
+			if s.cs == nil {
+				return
+			}
+			if src {
+				s.nSrc++
+				m := &vfResp{Attributes: &adminservice.StreamWorkflowReplicationMessagesResponse_Messages{Messages: &replicationv1.WorkflowReplicationMessages{ExclusiveHighWatermark: int64(100 + s.nSrc)}}}
+				s.ss.Taken()
+				s.cs.Push(m)
+				vfQuiesce()
+				time.Sleep(50 * time.Millisecond)
+				vfQuiesce()
+				if got := s.ss.Taken(); len(got) != 1 || got[0] != m {
+					verr = fmt.Errorf("message #%d from the source on a live pass-through stream did not reach its initiator (got %d) while %d stream(s) for the same shard exist(ed)", s.nSrc, len(got), len(all))
+				}
+			} else {
+				s.nAck++
+				m := &vfReq{Attributes: &adminservice.StreamWorkflowReplicationMessagesRequest_SyncReplicationState{SyncReplicationState: &replicationv1.SyncReplicationState{InclusiveLowWatermark: int64(s.nAck)}}}
+				s.cs.Taken()
+				s.ss.Push(m)
+				vfQuiesce()
+				time.Sleep(50 * time.Millisecond)
+				vfQuiesce()
+				if got := s.cs.Taken(); len(got) != 1 || got[0] != m {
+					verr = fmt.Errorf("sync state #%d on a live pass-through stream did not reach the source (got %d) while %d stream(s) for the same shard exist(ed)", s.nAck, len(got), len(all))
+				}
+			}
+		}
+		for _, o := range c.Ops {
+			if verr != nil {
+				break
+			}
+			l := live()
+			switch o.K {
+			case "open":
+				if len(l) >= 1 {
+					classes["overlap"] = true
+				}
+				if len(all) < 4 {
+					open()
+				}
+			case "src", "ack":
+				if len(l) > 0 {
+					s := l[o.I%len(l)]
+					if len(all) > len(l) {
+						classes["relay_after_another_stream_of_the_shard_ended"] = true
+					}
+					relay(s, o.K == "src")
+				}
+			case "endOldest":
+				if len(l) > 0 {
+					end(l[0])
+				}
+			case "endNewest":
+				if len(l) > 0 {
+					end(l[len(l)-1])
+				}
+			case "tick":
+				time.Sleep(time.Second)
+				vfQuiesce()
+			}
+		}
+		for _, s := range live() {
+			if verr == nil {
+				end(s)
+			}
+		}
+		for _, s := range all {
+			s.ss.Kill()
+			if s.cs != nil {
+				s.cs.Kill()
+			}
+		}
+		vfQuiesce()
+		time.Sleep(3 * time.Second)
+		vfQuiesce()
+	})
+	if p != nil && verr == nil {
+		verr = fmt.Errorf("panic: %v", p)
+	}
+	if verr == nil && leak != "" {
+		verr = fmt.Errorf("after all pass-through streams ended a worker is still running: %s", leak)
+	}
+	return classes, verr
+}
+
+func TestVF_C06_Overlap(t *testing.T) {
+	const part = "overlap"
+	if rp := vfshared.ReplayPart(); rp != "" && rp != part {
+		t.Skip()
+	}
+	st := vfshared.NewStats("C06", part, "1-4 pass-through streams for the same shard pair (default and LCM mode) opened while earlier ones are still up, messages and sync states relayed on any live stream, streams ended oldest or newest first; oracle: every relayed item reaches the other side of the same stream (identity), every handler returns once its own initiator ended, no goroutine is left; non-trivial = an item was relayed on a live stream after another stream of the same shard had ended")
+	defer st.Flush()
+	run := func(tt interface{ Fatalf(string, ...any) }, c c06oCase) {
+		stop := vfLockWatchdog(st, "C06", part, c, 45*time.Second)
+		cl, verr := c06oRun(t, c)
+		stop()
+		if verr != nil {
+			p := vfshared.WriteReplay("C06", part, c)
+			st.Violation(p, verr.Error())
+			tt.Fatalf("C06 violated: %v (replay %s)", verr, p)
+		}
+		var cls []string
+		for k := range cl {
+			cls = append(cls, k)
+		}
+		nt := cl["relay_after_another_stream_of_the_shard_ended"] && cl["overlap"]
+		st.Case(vfshared.Fingerprint(fmt.Sprintf("%+v", c)), nt, cls...)
+		if nt && st.WantSample() {
+			st.Sample(c)
+		}
+	}
+	if f := vfshared.ReplayFile(); f != "" {
+		var c c06oCase
+		if _, err := vfshared.LoadReplay(f, &c); err != nil {
+			t.Fatal(err)
+		}
+		run(t, c)
+		return
+	}
+	rapid.Check(t, func(rt *rapid.T) {
+		c := c06oCase{Mode: rapid.SampledFrom([]string{"default", "lcm"}).Draw(rt, "mode")}
+		c.Ops = append(c.Ops, c06oOp{K: "open"})
+		n := rapid.IntRange(2, 12).Draw(rt, "n")
+		for i := 0; i < n; i++ {
+			c.Ops = append(c.Ops, c06oOp{K: rapid.SampledFrom([]string{"open", "src", "src", "ack", "ack", "endOldest", "endNewest", "tick"}).Draw(rt, "k"), I: rapid.IntRange(0, 3).Draw(rt, "i")})
+		}
+		run(rt, c)
+	})
+}
